@@ -12,10 +12,8 @@ git -C $WT stash -q
 echo "== demo without change"; (cd $WT && /venv/bin/python $OUT/demo.py >/dev/null 2>&1; echo "exit=$?")
 git -C $WT stash pop -q
 rm -f $WT/cbi.log
-echo "== apply to /repo and run check"
-git -C /repo status --short | grep -v cbi.log
-git -C /repo apply $OUT/patch.diff || { echo "PATCH DOES NOT APPLY"; exit 2; }
-PID=$(echo $ID | cut -c1-3); (cd /verif && ./check $PID --tier quick --no-evidence "$@" 2>&1 | grep -v "^Compiler\|^Unrecognized" | grep "VIOLATION\|SUMMARY\|HARNESS\|KNOWN" | head -8)
-git -C /repo checkout -- .
-rm -f /repo/cbi.log
-git -C /repo status --short
+echo "== run the property's check against the worktree (PYTHONPATH puts it before /repo; /repo itself is not touched)"
+PID=$(echo $ID | cut -c1-3)
+(cd /verif && PYTHONPATH=$WT ./check $PID --tier quick --no-evidence "$@" 2>&1 | grep -v "^Compiler\|^Unrecognized" | grep "VIOLATION\|SUMMARY\|HARNESS\|KNOWN" | head -8)
+(cd /verif && PYTHONPATH=$WT .venv/bin/python -c "import codebasin; print('checked against', codebasin.__file__)" 2>/dev/null)
+rm -f $WT/cbi.log
